@@ -31,6 +31,8 @@ global size_of usize == 8;
 //@include prelude/regions_spec.rs
 //@include prelude/elim_region_spec.rs
 //@include prelude/elim_decided_spec.rs
+//@include prelude/wit_core_spec.rs
+//@include prelude/wit_edit_spec.rs
 //@include prelude/wit_spec.rs
 
 impl DfsNodeData {
